@@ -186,6 +186,10 @@ fn run_convert(log: &mut Log, c: &Value, src: &str) {
         (3, 27) => Some(pair!(3, 27)),
         (6, 36) => Some(pair!(6, 36)),
         (36, 6) => Some(pair!(36, 6)),
+        (4, 32) => Some(pair!(4, 32)),
+        (32, 4) => Some(pair!(32, 4)),
+        (4, 8) => Some(pair!(4, 8)),
+        (8, 32) => Some(pair!(8, 32)),
         _ => None,
     };
     if let Some((out, xobs)) = special {
